@@ -332,30 +332,36 @@ func handleLMove(params internal.HandlerFuncParams) ([]byte, error) {
 		return nil, errors.New("both source and destination must be lists")
 	}
 
+	if len(sourceList) == 0 {
+		return nil, errors.New("source list is empty")
+	}
+
+	// Take the element off the source list.
+	var elem string
+	var remaining []string
 	switch whereFrom {
 	case "left":
-		err = params.SetValues(params.Context, map[string]interface{}{
-			source: append([]string{}, sourceList[1:]...),
-			destination: func() []string {
-				if whereTo == "left" {
-					return append(sourceList[0:1], destinationList...)
-				}
-				// whereTo == "right"
-				return append(destinationList, sourceList[0])
-			}(),
-		})
+		elem = sourceList[0]
+		remaining = append([]string{}, sourceList[1:]...)
 	case "right":
-		err = params.SetValues(params.Context, map[string]interface{}{
-			source: append([]string{}, sourceList[:len(sourceList)-1]...),
-			destination: func() []string {
-				if whereTo == "left" {
-					return append(sourceList[len(sourceList)-1:], destinationList...)
-				}
-				// whereTo == "right"
-				return append(destinationList, sourceList[len(sourceList)-1])
-			}(),
-		})
+		elem = sourceList[len(sourceList)-1]
+		remaining = append([]string{}, sourceList[:len(sourceList)-1]...)
 	}
+	// When source and destination are the same list, the element is re-inserted into what remains of it.
+	if source == destination {
+		destinationList = remaining
+	}
+	// Put the element onto the destination list.
+	var updated []string
+	if whereTo == "left" {
+		updated = append([]string{elem}, destinationList...)
+	} else {
+		updated = append(append([]string{}, destinationList...), elem)
+	}
+
+	entries := map[string]interface{}{source: remaining}
+	entries[destination] = updated
+	err = params.SetValues(params.Context, entries)
 
 	if err != nil {
 		return nil, err
